@@ -3,17 +3,18 @@
 (* per parameter kind / state, the rest of the product is printed from it). *)
 EXTENDS Param, Json
 VARIABLE i
-PKinds == <<[p |-> "v", vst |-> "unset"], [p |-> "v", vst |-> "null"], [p |-> "v", vst |-> "x"], [p |-> "v", vst |-> "xy"],
+PKinds == <<[p |-> "v", vst |-> "unset"], [p |-> "v", vst |-> "null"], [p |-> "v", vst |-> "x"], [p |-> "v", vst |-> "xy"], [p |-> "v", vst |-> "mb"],
             [p |-> "1", vst |-> "unset"], [p |-> "@", vst |-> "unset"], [p |-> "*", vst |-> "unset"],
             [p |-> "#", vst |-> "unset"], [p |-> "!", vst |-> "unset"]>>
-ArgSets == << <<>>, <<"">>, <<"x">>, <<"x", "", "yz">> >>
+ArgSets == << <<>>, <<"">>, <<"x">>, <<"x", "", "yz">>, <<"mb", "x">> >>
 WordOps == {":-", "-", ":=", "=", ":?", "?", ":+", "+"}
 PatOps == {"%", "%%", "#", "##"}
 Cases(k) ==
     {[p |-> PKinds[k].p, vst |-> PKinds[k].vst, args |-> ArgSets[a], op |-> op, w |-> w, q |-> q, ifs |-> ifs, nounset |-> nu] :
-        a \in 1..Len(ArgSets), op \in WordOps \cup PatOps \cup {"", "len"}, w \in {"w", "uv", "side", "pat", "none"},
+        a \in 1..Len(ArgSets), op \in WordOps \cup PatOps \cup {"", "len"}, w \in {"w", "uv", "at", "side", "pat", "none"},
         q \in {"none", "dq", "wq"}, ifs \in {"default", "comma", "empty"}, nu \in BOOLEAN}
-Valid(c) == /\ (c.op \in WordOps) <=> (c.w \in {"w", "uv", "side"})
+Valid(c) == /\ (c.op \in WordOps) <=> (c.w \in {"w", "uv", "side", "at"})
+            /\ (c.w = "at") => (c.op \in {":-", "-", ":+", "+"} /\ c.q = "none")
             /\ (c.op \in PatOps) <=> (c.w = "pat")
             /\ (c.q = "wq") => (c.w \in {"w", "uv"})
             /\ (c.p \in {"v", "#", "!"}) => c.args = <<"x">>          \* the positional parameters do not matter
